@@ -191,6 +191,11 @@ def baseOfTag : DTag â†’ Ty
   | .i32 => .base .i32 | .i64 => .base .i64 | .string => .base .string | .binary => .base .binary
   | _ => .base .bool
 
+/-- the predeclared 64-bit integer types: naming one of them in the annotation is a redundant
+    annotation, naming any other (defined) 64-bit integer type makes the field an enum (D24: `int` used
+    to count as defined) -/
+def isPredeclared64 (vt : GoTy) : Bool := vt == .prim .int64 "int64" || vt == .prim .int "int"
+
 /-- match the annotation token against the kind's keyword(s) (`isKeyword`) or the type's
     own name (`doMatchStruct`); returns the rest and whether the type became an enum. -/
 def matchAnnot (vt : GoTy) (tag : DTag) (def_ : List Char) : Option (List Char Ã— Bool) :=
@@ -205,7 +210,7 @@ def matchAnnot (vt : GoTy) (tag : DTag) (def_ : List Char) : Option (List Char Ã
         | none => none
         | some (ok, rest') =>
           if !ok then none
-          else some (rest', tag == .i64 && !(vt == .prim .int64 "int64"))
+          else some (rest', tag == .i64 && !isPredeclared64 vt)
       | [] => none
 
 def expectTok (def_ : List Char) (tok : Char) : Option (List Char) :=
